@@ -12,7 +12,8 @@ Helper material (essentials `E`, `cacheGet_E`, `cacheSet_E`, `round_core`, `loop
 * `UsersDelta` — `setUserAll_delta`, `forUser_delta`, `logoutUser_delta`, `refreshUser_delta`
   (+ `forUser_vers`, `logoutUser_vers`, `refreshUser_vers`, `UsersDelta.rec_of`, `UsersDelta.rec_to`)
 * `LogoutFrame` — `hlogout_frame` (any state); `LogoutDelta` — `hlogout_delta` (`Inv`, `HOK`)
-* `LoginDelta` — `hlogin_delta_HL` (`HL s h` suffices), `hlogin_delta` (`HOK s h`)
+* `LoginDelta` — `hlogin_delta_HL` (`HL s h` suffices), `hlogin_delta` (`HOK s h`); event level: fields `saves`,
+  `refSaved`, and `hlogin_saves` (the collapsed form, needs `RefAgrees`)
 
 ## the property
 * (1) `c08_logoutUser` (no side condition); `c08_refresh` (no side condition: success, new version in the user table and
@@ -26,6 +27,9 @@ Helper material (essentials `E`, `cacheGet_E`, `cacheSet_E`, `round_core`, `loop
   "RefreshUser leaves the user ids of the records alone". Not needed for `c08_logoutUser`, `c08_refresh`, the deltas.
 * `RecOf c s h` — the handle's object has a record it agrees with (true for the object cached under its id). Needed
   ONLY for "after `s.LogOut()` the record exists and carries no user" when the object carried no user to begin with.
+* `RefAgrees s h` — the record under the object's id (if any) carries the object's `ref` (true for the cached object,
+  `refAgrees_of_cached`, and under `RecOf`). Needed ONLY for `hlogin_saves`; `#guard` counter-example
+  `Ex08.login_saves_needs_refAgrees` on `Ex08.exU`.
 * `HOK s h` is needed for NO user-related conclusion about `s.LogIn`, nor for `Inv` of the state it leaves
   (`hlogin_delta_HL`); `hlogout_delta` needs it for `Inv` (the direct save by-passes a cached second copy).
 -/
@@ -194,6 +198,47 @@ theorem refreshUser_vers (cfg : Cfg) (le : ID → ID → Bool) (s : State) (uid 
   have hi0 : Inv cfg.codec ({ s with vers := insert uid (s.ver uid + 1) s.vers } : State) := hi.congr rfl rfl rfl rfl rfl
   exact forUser_vers cfg le _ uid (some (uid, s.ver uid + 1)) hnf0 hi0
 
+/-- under `Inv`, a cached object's user id is the user of its record -/
+theorem cached_user {c : Codec} {s : State} (hi : Inv c s) {k : ID} {x : Nat} (hm : (k, x) ∈ s.cache) :
+    ∃ rc, lookup k s.store = some rc ∧ (s.obj x).user.map (·.1) = rc.user := by
+  obtain ⟨rc, hl, he⟩ := hi.coh k x hm (by simp)
+  exact ⟨rc, hl, by rw [← enc_user c, ess_user he]⟩
+
+/-- reading a record of the state after a user loop -/
+theorem UsersDelta.rec_of {cfg : Cfg} {s : State} {ids : List ID} {u : Option (String × Nat)} {r : State × Bool × List Ev}
+    (D : UsersDelta cfg s ids u r) {k : ID} {rc : Rec} (hl : lookup k r.1.store = some rc) :
+    ∃ r0, lookup k s.store = some r0 ∧ rc.user = (if k ∈ ids then u.map (·.1) else r0.user) ∧
+      rc.created = r0.created ∧ rc.ref = r0.ref ∧ rc.data = r0.data := by
+  have h := D.store k
+  rw [hl] at h
+  cases hl0 : lookup k s.store with
+  | none => rw [hl0] at h; simp at h
+  | some r0 =>
+    rw [hl0] at h
+    simp only [Option.map_some, Option.some.injEq] at h
+    refine ⟨r0, rfl, ?_⟩
+    by_cases hk : k ∈ ids
+    · rw [if_pos hk] at h ⊢
+      exact ⟨ess_user h, (ess_created h).trans rfl, (ess_ref h).trans rfl, (ess_data h).trans rfl⟩
+    · rw [if_neg hk] at h ⊢
+      exact ⟨ess_user h, ess_created h, ess_ref h, ess_data h⟩
+
+/-- … and the other way round: no record disappears -/
+theorem UsersDelta.rec_to {cfg : Cfg} {s : State} {ids : List ID} {u : Option (String × Nat)} {r : State × Bool × List Ev}
+    (D : UsersDelta cfg s ids u r) {k : ID} {r0 : Rec} (hl0 : lookup k s.store = some r0) :
+    ∃ rc, lookup k r.1.store = some rc ∧ rc.user = (if k ∈ ids then u.map (·.1) else r0.user) ∧
+      rc.created = r0.created ∧ rc.ref = r0.ref ∧ rc.data = r0.data := by
+  have h := D.store k
+  rw [hl0] at h
+  cases hl : lookup k r.1.store with
+  | none => rw [hl] at h; simp at h
+  | some rc =>
+    obtain ⟨r0', hl0', hh⟩ := D.rec_of hl
+    rw [hl0] at hl0'
+    simp only [Option.some.injEq] at hl0'
+    subst hl0'
+    exact ⟨rc, rfl, hh⟩
+
 /-! ### the delta of `s.LogOut()` -/
 
 theorem sess_user_none {o : Sess} (h : o.user = none) : ({ o with user := none } : Sess) = o := by
@@ -278,6 +323,24 @@ theorem SameCore.set {o o' : Sess} (h : SameCore o o') (i : ID) (u : Option (Str
   subst h3 h4 h5 h6
   rfl
 
+/-- reading one record through a per-key `map ess` equation of the kind the deltas provide -/
+theorem core_of_map {st st' : List (ID × Rec)} {k : ID} {b : Prop} [Decidable b] {U : Option String}
+    (h : (lookup k st').map ess = (lookup k st).map (fun rc => if b then ess { rc with user := U } else ess rc))
+    {r1 : Rec} (hl : lookup k st' = some r1) :
+    ∃ r0, lookup k st = some r0 ∧ r1.ref = r0.ref ∧ r1.data = r0.data ∧ r1.created = r0.created := by
+  rw [hl] at h
+  cases hl0 : lookup k st with
+  | none => rw [hl0] at h; simp at h
+  | some r0 =>
+    rw [hl0] at h
+    simp only [Option.map_some, Option.some.injEq] at h
+    refine ⟨r0, rfl, ?_⟩
+    by_cases hb : b
+    · rw [if_pos hb] at h
+      exact ⟨(ess_ref h).trans rfl, (ess_data h).trans rfl, (ess_created h).trans rfl⟩
+    · rw [if_neg hb] at h
+      exact ⟨ess_ref h, ess_data h, ess_created h⟩
+
 /-- what the first phase of `LogIn` (`LogOut(uid)` when exclusive, `s.LogOut()` otherwise) guarantees; `HL s h` is
 all it needs. After `s.LogOut()` through an object that is not the cached one, the state is coherent except at the
 object's own id (`x = some old`): the direct save by-passed the cached copy. -/
@@ -300,6 +363,13 @@ structure PreD (cfg : Cfg) (le : ID → ID → Bool) (s : State) (h : Nat) (uid 
   objs : ∀ x, x < s.heap.length → x ≠ h → (p.1.obj x).id = (s.obj x).id ∧ (p.1.obj x).ref = (s.obj x).ref ∧
     (p.1.obj x).data = (s.obj x).data ∧ (p.1.obj x).created = (s.obj x).created
   evs : ∀ e ∈ p.2.2, plainEv e = true
+  /-- a save of the first phase re-writes an existing record, or is the save of the session object by `s.LogOut()` -/
+  saves : ∀ k rc, Ev.save k rc ∈ p.2.2 →
+    (∃ r0, lookup k s.store = some r0 ∧ rc.ref = r0.ref ∧ rc.data = r0.data ∧ rc.created = r0.created) ∨
+    (k = (s.obj h).id ∧ rc.ref = (s.obj h).ref)
+  /-- a second object cached under the session's id agrees in `ref` with the record the session had -/
+  cachedOld : ∀ y, ((s.obj h).id, y) ∈ p.1.cache → y ≠ h →
+    ∃ r0, lookup (s.obj h).id s.store = some r0 ∧ (p.1.obj y).ref = r0.ref
 
 theorem loginPre_spec (cfg : Cfg) (le : ID → ID → Bool) (s : State) (h : Nat) (uid : String) (excl : Bool)
     (hnf : NoFail s) (hi : Inv cfg.codec s) (hl : HL s h) :
@@ -321,7 +391,7 @@ theorem loginPre_spec (cfg : Cfg) (le : ID → ID → Bool) (s : State) (h : Nat
     have hsc : SameCore (s.obj h) ((forUser cfg le s uid none).1.obj h) := by
       rcases D.objU h hl.valid with e | e <;> rw [e] <;> exact ⟨rfl, rfl, rfl, rfl, rfl, rfl⟩
     refine ⟨D.ok, ⟨none, Or.inl rfl, D.inv⟩, ?_, D.nofail, hl.step hU.step, hsc, ?_, D.nextId, D.timers, D.extra, D.now,
-      hvers, D.len, fun x hx _ => D.objs x hx, hplain⟩
+      hvers, D.len, fun x hx _ => D.objs x hx, hplain, fun k rc hm => Or.inl (D.saves k rc hm), ?_⟩
     · intro id' hm
       rw [← hsc.1]
       exact (D.inv.wf id' h hm (by simp)).symm
@@ -330,6 +400,10 @@ theorem loginPre_spec (cfg : Cfg) (le : ID → ID → Bool) (s : State) (h : Nat
       congr 1
       funext rc
       by_cases hm : k ∈ userSessions le s uid <;> simp [hm]
+    · intro y hm _
+      obtain ⟨r1, hl1, he1⟩ := D.inv.coh _ y hm (by simp)
+      obtain ⟨r0, hl0, _, _, hrf, _⟩ := D.rec_of hl1
+      exact ⟨r0, hl0, by rw [← hrf, ← ess_ref he1, enc_ref]⟩
   | false =>
     have hpre : Loc.loginPre cfg le s h uid false = ((hlogout cfg s h).1, true, (hlogout cfg s h).2.2) := by
       simp [Loc.loginPre]
@@ -338,7 +412,7 @@ theorem loginPre_spec (cfg : Cfg) (le : ID → ID → Bool) (s : State) (h : Nat
     have honly : ∀ id', (id', h) ∈ s.cache → id' = (s.obj h).id := fun id' hm => (hi.wf id' h hm (by simp)).symm
     have hoh : (hlogout cfg s h).1.obj h = { s.obj h with user := none } := by rw [D.obj h, if_pos rfl]
     refine ⟨rfl, ?_, ?_, D.nofail, ?_, ?_, ?_, D.nextId, D.timers, D.extra, D.now, D.vers, Nat.le_of_eq D.len.symm,
-      ?_, ?_⟩
+      ?_, ?_, ?_, ?_⟩
     · -- the state after the direct save: coherent except (possibly) at the object's id
       by_cases hu : (s.obj h).user = none
       · rw [Loc.hlogout_none hu]; exact ⟨none, Or.inl rfl, hi⟩
@@ -382,6 +456,20 @@ theorem loginPre_spec (cfg : Cfg) (le : ID → ID → Bool) (s : State) (h : Nat
       split at he'
       · simp at he'
       · simp only [List.mem_singleton] at he'; subst he'; rfl
+    · intro k rc hm
+      have hm' : Ev.save k rc ∈ (hlogout cfg s h).2.2 := hm
+      rw [D.evs] at hm'
+      split at hm'
+      · simp at hm'
+      · simp only [List.mem_singleton, Ev.save.injEq] at hm'
+        exact Or.inr ⟨hm'.1, by rw [hm'.2, enc_ref]⟩
+    · intro y hm hy
+      have hm' : ((s.obj h).id, y) ∈ (hlogout cfg s h).1.cache := hm
+      rw [D.cache] at hm'
+      obtain ⟨r0, hl0, he0⟩ := hi.coh _ y hm' (by simp)
+      refine ⟨r0, hl0, ?_⟩
+      show ((hlogout cfg s h).1.obj y).ref = _
+      rw [D.obj y, if_neg hy, ← ess_ref he0, enc_ref]
 
 /-- the fields `RegenerateID` leaves alone, when it succeeds -/
 theorem regenerate_extra_vers (cfg : Cfg) (s : State) (h : Nat) (hok : (regenerate cfg s h).2.1 = true) :
@@ -422,6 +510,19 @@ structure LoginDelta (cfg : Cfg) (le : ID → ID → Bool) (s : State) (h : Nat)
   cookies : r.2.2.filter isCookie = [.setCookie (.gen s.nextId)]
   /-- nothing is deleted -/
   nodel : ∀ k, Ev.del k ∉ r.2.2
+  /-- the saves: under any other key they re-write an existing record (changing at most user / lastAccess / ip / ua);
+  under the old / new id they are saves of the session object itself (`ref` as the object's), the final reference
+  record, or — under the old id only — re-writes of the record the session had, keeping its `ref` (the exclusive loop
+  logging this very session out, or a flush of a second cached copy). With `RefAgrees` the last case collapses into
+  the first: `hlogin_saves`. -/
+  saves : ∀ k rc, Ev.save k rc ∈ r.2.2 →
+    (k ≠ (s.obj h).id → k ≠ .gen s.nextId →
+      ∃ r0, lookup k s.store = some r0 ∧ rc.ref = r0.ref ∧ rc.data = r0.data ∧ rc.created = r0.created) ∧
+    (k = (s.obj h).id ∨ k = .gen s.nextId →
+      rc.ref = (s.obj h).ref ∨ (k = (s.obj h).id ∧ rc.ref = some (.gen s.nextId)) ∨
+      (k = (s.obj h).id ∧ ∃ r0, lookup (s.obj h).id s.store = some r0 ∧ rc.ref = r0.ref))
+  /-- the reference record IS saved under the old id -/
+  refSaved : ∃ rc, Ev.save (s.obj h).id rc ∈ r.2.2 ∧ rc.ref = some (.gen s.nextId)
 
 /-- **delta of `s.LogIn`, needing `HL s h` only** (not `HOK`): the handle is allocated, its id minted. If another
 object is cached under the session's id (what `LogOut(uid)` in the middle of the request produces, see
@@ -446,9 +547,10 @@ theorem hlogin_delta_HL (cfg : Cfg) (le : ID → ID → Bool) (s : State) (h : N
   obtain ⟨s1, ok1, e1⟩ := pre
   generalize Loc.loginSet cfg le s h uid excl = st at R hset ⊢
   obtain ⟨s3, ok3, e3⟩ := st
-  obtain ⟨_, _, _, hnf1, hl1, hobjh1, hstore1, hnext1, htim1, hextra1, hnow1, hvers1, hlen1, hobjs1, hevs1⟩ := P
+  obtain ⟨_, _, _, hnf1, hl1, hobjh1, hstore1, hnext1, htim1, hextra1, hnow1, hvers1, hlen1, hobjs1, hevs1, hsaves1,
+    hcold1⟩ := P
   obtain ⟨_, hinv3, hnf3, hhok3, hnow3, hnext3, htim3, hvers3, hextra3, hlen3, hobj3, _, hEne3, _, hevs3⟩ := R
-  simp only at hnf1 hl1 hobjh1 hstore1 hnext1 htim1 hextra1 hnow1 hvers1 hlen1 hobjs1 hevs1
+  simp only at hnf1 hl1 hobjh1 hstore1 hnext1 htim1 hextra1 hnow1 hvers1 hlen1 hobjs1 hevs1 hsaves1 hcold1
   simp only at hinv3 hnf3 hhok3 hnow3 hnext3 htim3 hvers3 hextra3 hlen3 hobj3 hEne3 hevs3 ⊢
   have hver1 : s1.ver uid = s.ver uid := by simp [State.ver, hvers1]
   have hn3 : s3.nextId = s.nextId := hnext3.trans hnext1
@@ -470,8 +572,14 @@ theorem hlogin_delta_HL (cfg : Cfg) (le : ID → ID → Bool) (s : State) (h : N
     rw [hoh3, hn3, hnow3']
     unfold setUObj
     exact hobjh1.set _ _ _ _
+  have Dl := regenerate_delta cfg s3 h hnf3 hinv3 hhok3
+  have hnewabs : lookup (ID.gen s.nextId) s.store = none := More.C10.new_absent hi
+  have href3 : (s3.obj h).ref = (s.obj h).ref := by rw [hoh3]; exact hobjh1.2.2.2.2.1
+  have htr1 : ∀ k r1, k ≠ (s.obj h).id → lookup k s1.store = some r1 →
+      ∃ r0, lookup k s.store = some r0 ∧ r1.ref = r0.ref ∧ r1.data = r0.data ∧ r1.created = r0.created :=
+    fun k r1 hk hl => core_of_map (hstore1 k hk) hl
   refine ⟨by rw [G.ok]; rfl, G.inv, G.hok, G.mono.nofail, by rw [G.nextId, hn3], hobjF, ?_, ?_, ?_, ?_,
-    Lnow.trans hnow3', (Lextra.trans hextra3).trans hextra1, (Lvers.trans hvers3).trans hvers1, ?_, ?_, ?_, ?_⟩
+    Lnow.trans hnow3', (Lextra.trans hextra3).trans hextra1, (Lvers.trans hvers3).trans hvers1, ?_, ?_, ?_, ?_, ?_, ?_⟩
   · show lookup (ID.gen s.nextId) (regenerate cfg s3 h).1.store = some (enc cfg.codec ((regenerate cfg s3 h).1.obj h))
     rw [Lobj, ← hn3]; exact Lnew
   · refine ⟨_, by rw [← hid3]; exact Lold, ?_⟩
@@ -510,6 +618,71 @@ theorem hlogin_delta_HL (cfg : Cfg) (le : ID → ID → Bool) (s : State) (h : N
       rcases hk' with hk' | hk'
       · rcases LeA _ hk' with ⟨_, _, h'⟩ | ⟨_, h'⟩ <;> cases h'
       · rcases LeB _ hk' with ⟨_, _, h'⟩ | ⟨_, h'⟩ <;> cases h'
+  · -- the saves
+    intro k rc hm
+    have hm' : Ev.save k rc ∈ e1 ++ e3 ++ (regenerate cfg s3 h).2.2 := hm
+    rcases List.mem_append.1 hm' with hm' | hm'
+    · rcases List.mem_append.1 hm' with hm' | hm'
+      · -- first phase
+        rcases hsaves1 k rc hm' with ⟨r0, hl0, c1, c2, c3⟩ | ⟨hk, hr⟩
+        · refine ⟨fun _ _ => ⟨r0, hl0, c1, c2, c3⟩, ?_⟩
+          rintro (hk | hk)
+          · subst hk; exact Or.inr (Or.inr ⟨rfl, r0, hl0, c1⟩)
+          · subst hk; rw [hnewabs] at hl0; cases hl0
+        · exact ⟨fun hne _ => absurd hk hne, fun _ => Or.inl hr⟩
+      · -- the `Set` that stores the user
+        rcases (hevs3 _ hm').2 k rc rfl with ⟨hk, hr⟩ | ⟨y, hmy, hyh, hr⟩
+        · have hk' : k = (s.obj h).id := hk.trans hobjh1.1
+          refine ⟨fun hne _ => absurd hk' hne, fun _ => Or.inl ?_⟩
+          rw [hr, enc_ref]; exact hobjh1.2.2.2.2.1
+        · by_cases hko : k = (s.obj h).id
+          · subst hko
+            obtain ⟨r0, hl0, hrf⟩ := hcold1 y hmy hyh
+            exact ⟨fun hne _ => absurd rfl hne, fun _ => Or.inr (Or.inr ⟨rfl, r0, hl0, by rw [hr, enc_ref]; exact hrf⟩)⟩
+          · have hkx : some k ≠ x := by
+              rcases hx with rfl | rfl
+              · simp
+              · simpa using hko
+            obtain ⟨r1, hl1, he1⟩ := hinvX.coh k y hmy hkx
+            obtain ⟨r0, hl0, c1, c2, c3⟩ := htr1 k r1 hko hl1
+            refine ⟨fun _ _ => ⟨r0, hl0, by rw [hr, ess_ref he1, c1], by rw [hr, ess_data he1, c2],
+              by rw [hr, ess_created he1, c3]⟩, ?_⟩
+            rintro (hk | hk)
+            · exact absurd hk hko
+            · subst hk
+              exact absurd (hnext1 ▸ rfl) (hinvX.ckeys _ y hmy).ne_gen
+    · -- `RegenerateID`
+      by_cases hX : k = (s3.obj h).id ∨ k = .gen s3.nextId
+      · refine ⟨fun h1 h2 => ?_, fun _ => ?_⟩
+        · rcases hX with e | e
+          · exact absurd (e.trans hid3) h1
+          · exact absurd (e.trans (by rw [hn3])) h2
+        · rcases Dl.xsaves k rc hm' hX with e | ⟨e1', e2'⟩
+          · exact Or.inl (e.trans href3)
+          · refine Or.inr (Or.inl ⟨e1'.trans hid3, ?_⟩)
+            rw [e2', (Loc.enc_rotRef cfg s3 h).1, hn3]
+      · have hk1 : k ≠ (s.obj h).id := fun e => hX (Or.inl (e.trans hid3.symm))
+        have hk2 : k ≠ .gen s.nextId := fun e => hX (Or.inr (e.trans (by rw [hn3])))
+        obtain ⟨r3, hl3, he3⟩ := Dl.quiet.saves k rc hm' hX
+        have e2 : E k s3.store = E k s1.store := hEne3 k (by rw [hobjh1.1]; exact hk1)
+        unfold E at e2
+        rw [hl3] at e2
+        refine ⟨fun _ _ => ?_, fun hc => ?_⟩
+        · cases hl1 : lookup k s1.store with
+          | none => rw [hl1] at e2; simp at e2
+          | some r1 =>
+            rw [hl1] at e2
+            simp only [Option.map_some, Option.some.injEq] at e2
+            obtain ⟨r0, hl0, c1, c2, c3⟩ := htr1 k r1 hk1 hl1
+            have he := he3.trans e2
+            exact ⟨r0, hl0, by rw [ess_ref he, c1], by rw [ess_data he, c2], by rw [ess_created he, c3]⟩
+        · rcases hc with e | e
+          · exact absurd e hk1
+          · exact absurd e hk2
+  · -- the reference record is saved
+    have hrs := Dl.ref_saved
+    rw [hid3] at hrs
+    exact ⟨_, List.mem_append_right _ hrs, by rw [(Loc.enc_rotRef cfg s3 h).1, hn3]⟩
 
 /-- **delta of `s.LogIn`** for the request's object (`HOK s h`, what `Start` provides) which is not a reference
 record (`_href`; the delta itself does not depend on it: `LoginDelta.obj` says the reference field is kept). -/
@@ -518,48 +691,41 @@ theorem hlogin_delta (cfg : Cfg) (le : ID → ID → Bool) (s : State) (h : Nat)
     LoginDelta cfg le s h uid excl (hlogin cfg le s h uid excl) :=
   hlogin_delta_HL cfg le s h uid excl hnf hi hk.toHL
 
+/-- the hypothesis of `hlogin_saves`: **the record the session has under its id (if any) carries the object's
+reference field.** True when the object is coherent with its record (`RecOf`, `refAgrees_of_recOf`), in particular
+when it is the object cached under its id (`refAgrees_of_cached`); neither `HL` nor `HOK` gives it for an uncached
+object. Without it an exclusive `LogIn` (whose loop re-writes the session's own record when it is listed for the user)
+emits a save under the old id whose `ref` is the record's, not the object's: `Ex08.login_saves_needs_refAgrees`. -/
+def RefAgrees (s : State) (h : Nat) : Prop := ∀ r0, lookup (s.obj h).id s.store = some r0 → r0.ref = (s.obj h).ref
+
+theorem refAgrees_of_cached {c : Codec} {s : State} {h : Nat} (hi : Inv c s) (hc : ((s.obj h).id, h) ∈ s.cache) :
+    RefAgrees s h := by
+  intro r0 hl0
+  obtain ⟨r, hl, he⟩ := hi.coh _ h hc (by simp)
+  rw [hl0] at hl
+  simp only [Option.some.injEq] at hl
+  subst hl
+  rw [← ess_ref he, enc_ref]
+
+/-- **the saves of `s.LogIn`, event level** (for folds over the `.save` events): under a key other than the old and
+the new id a save re-writes an existing record keeping `ref`, `data`, `created`; under the old / new id it is a save of
+the session object itself (`ref` as the object's) or the final reference record; and the reference record is saved. -/
+theorem hlogin_saves (cfg : Cfg) (le : ID → ID → Bool) (s : State) (h : Nat) (uid : String) (excl : Bool)
+    (hnf : NoFail s) (hi : Inv cfg.codec s) (hl : HL s h) (hra : RefAgrees s h) :
+    (∀ k rc, Ev.save k rc ∈ (hlogin cfg le s h uid excl).2.2 →
+      (k ≠ (s.obj h).id → k ≠ .gen s.nextId →
+        ∃ r0, lookup k s.store = some r0 ∧ rc.ref = r0.ref ∧ rc.data = r0.data ∧ rc.created = r0.created) ∧
+      (k = (s.obj h).id ∨ k = .gen s.nextId →
+        rc.ref = (s.obj h).ref ∨ (k = (s.obj h).id ∧ rc.ref = some (.gen s.nextId)))) ∧
+    ∃ rc, Ev.save (s.obj h).id rc ∈ (hlogin cfg le s h uid excl).2.2 ∧ rc.ref = some (.gen s.nextId) := by
+  have D := hlogin_delta_HL cfg le s h uid excl hnf hi hl
+  refine ⟨fun k rc hm => ⟨(D.saves k rc hm).1, fun hk => ?_⟩, D.refSaved⟩
+  rcases (D.saves k rc hm).2 hk with e | e | ⟨_, r0, hl0, e⟩
+  · exact Or.inl e
+  · exact Or.inr e
+  · exact Or.inl (e.trans (hra r0 hl0))
+
 /-! ## C08 -/
-
-/-- under `Inv`, a cached object's user id is the user of its record -/
-theorem cached_user {c : Codec} {s : State} (hi : Inv c s) {k : ID} {x : Nat} (hm : (k, x) ∈ s.cache) :
-    ∃ rc, lookup k s.store = some rc ∧ (s.obj x).user.map (·.1) = rc.user := by
-  obtain ⟨rc, hl, he⟩ := hi.coh k x hm (by simp)
-  exact ⟨rc, hl, by rw [← enc_user c, ess_user he]⟩
-
-/-- reading a record of the state after a user loop -/
-theorem UsersDelta.rec_of {cfg : Cfg} {s : State} {ids : List ID} {u : Option (String × Nat)} {r : State × Bool × List Ev}
-    (D : UsersDelta cfg s ids u r) {k : ID} {rc : Rec} (hl : lookup k r.1.store = some rc) :
-    ∃ r0, lookup k s.store = some r0 ∧ rc.user = (if k ∈ ids then u.map (·.1) else r0.user) ∧
-      rc.created = r0.created ∧ rc.ref = r0.ref ∧ rc.data = r0.data := by
-  have h := D.store k
-  rw [hl] at h
-  cases hl0 : lookup k s.store with
-  | none => rw [hl0] at h; simp at h
-  | some r0 =>
-    rw [hl0] at h
-    simp only [Option.map_some, Option.some.injEq] at h
-    refine ⟨r0, rfl, ?_⟩
-    by_cases hk : k ∈ ids
-    · rw [if_pos hk] at h ⊢
-      exact ⟨ess_user h, (ess_created h).trans rfl, (ess_ref h).trans rfl, (ess_data h).trans rfl⟩
-    · rw [if_neg hk] at h ⊢
-      exact ⟨ess_user h, ess_created h, ess_ref h, ess_data h⟩
-
-/-- … and the other way round: no record disappears -/
-theorem UsersDelta.rec_to {cfg : Cfg} {s : State} {ids : List ID} {u : Option (String × Nat)} {r : State × Bool × List Ev}
-    (D : UsersDelta cfg s ids u r) {k : ID} {r0 : Rec} (hl0 : lookup k s.store = some r0) :
-    ∃ rc, lookup k r.1.store = some rc ∧ rc.user = (if k ∈ ids then u.map (·.1) else r0.user) ∧
-      rc.created = r0.created ∧ rc.ref = r0.ref ∧ rc.data = r0.data := by
-  have h := D.store k
-  rw [hl0] at h
-  cases hl : lookup k r.1.store with
-  | none => rw [hl] at h; simp at h
-  | some rc =>
-    obtain ⟨r0', hl0', hh⟩ := D.rec_of hl
-    rw [hl0] at hl0'
-    simp only [Option.some.injEq] at hl0'
-    subst hl0'
-    exact ⟨rc, rfl, hh⟩
 
 /-- **C08 (1a): `LogOut(uid)` detaches the user everywhere.** Fault-free, from a coherent state, for every order
 oracle: the call reports success, afterwards NO stored record carries `uid` and no cached object does.
@@ -726,6 +892,14 @@ def RecOf (c : Codec) (s : State) (h : Nat) : Prop :=
 
 theorem recOf_of_cached {c : Codec} {s : State} {h : Nat} (hi : Inv c s) (hc : ((s.obj h).id, h) ∈ s.cache) :
     RecOf c s h := More.C10.hrec_of_cached hi hc
+
+theorem refAgrees_of_recOf {c : Codec} {s : State} {h : Nat} (hr : RecOf c s h) : RefAgrees s h := by
+  intro r0 hl0
+  obtain ⟨r, hl, he⟩ := hr
+  rw [hl0] at hl
+  simp only [Option.some.injEq] at hl
+  subst hl
+  rw [ess_ref he, enc_ref]
 
 /-- **C08 (3): … and from its record.** -/
 theorem c08_logout (cfg : Cfg) (s : State) (h : Nat) (hnf : NoFail s) (hi : Inv cfg.codec s) (hk : HOK s h)
@@ -1058,6 +1232,51 @@ theorem logout_needs_record :
   refine ⟨h1, h2, h4, ?_, ?_⟩
   · rintro ⟨r0, hl, _⟩; rw [hn0] at hl; cases hl
   · rintro ⟨rc, hl, _⟩; rw [hn] at hl; cases hl
+
+/-! #### `RefAgrees` cannot be dropped from `hlogin_saves` -/
+
+/-- an uncached session object (no reference) whose record, listed for "u", carries a reference -/
+def exU : State :=
+  { heap := [{ id := .gen 0, created := 0, lastAccess := 0 }],
+    store := [(.gen 0, enc .gob { id := .gen 0, created := 0, lastAccess := 0, user := some ("u", 0), ref := some (.gen 0) })],
+    nextId := 1 }
+
+theorem exU_ok : NoFail exU ∧ Inv Codec.gob exU ∧ HOK exU 0 ∧ ¬ RefAgrees exU 0 := by
+  refine ⟨noFail_of_nil rfl, ⟨List.nodup_nil, ?_, ?_, ?_, ?_, ?_, ⟨by decide, ?_, ?_, ?_⟩, ?_⟩,
+    ⟨⟨by decide, ⟨0, rfl, by decide⟩, refOK_none _⟩, ?_⟩, ?_⟩
+  · intro id h hm; simp [exU] at hm
+  · intro id h hm; simp [exU] at hm
+  · intro id h hm; simp [exU] at hm
+  · intro id h hm; simp [exU] at hm
+  · intro id h hm; simp [exU] at hm
+  · intro id r hm
+    simp only [exU, List.mem_singleton, Prod.mk.injEq] at hm
+    rw [hm.1]; exact ⟨0, rfl, by decide⟩
+  · intro id r hm
+    simp only [exU, List.mem_singleton, Prod.mk.injEq] at hm
+    rw [hm.2, enc_ref]; exact refOK_some ⟨0, rfl, by decide⟩
+  · intro id r hm
+    simp only [exU, List.mem_singleton, Prod.mk.injEq] at hm
+    rw [hm.2]; exact norm_enc _ _
+  · intro t id hm; simp [exU] at hm
+  · intro h' hm; simp [exU] at hm
+  · intro hra
+    have := hra _ (show lookup (exU.obj 0).id exU.store = some _ from rfl)
+    exact absurd this (by decide)
+
+/-- the general form (`LoginDelta.saves`, third alternative) does hold for it … -/
+example (le : ID → ID → Bool) := (hlogin_delta_HL {} le exU 0 "u" true exU_ok.1 exU_ok.2.1 exU_ok.2.2.1.toHL).saves
+-- … but the exclusive log-in re-writes the listed record under the old id `gen 0` keeping ITS reference `some (gen 0)`,
+-- which is neither the object's (`none`) nor the new id (`gen 1`): the conclusion of `hlogin_saves` fails.
+/-- `Ex08.login_saves_needs_refAgrees` (evaluated: the listing sorts with `List.mergeSort`) -/
+def login_saves_needs_refAgrees : Bool :=
+  (hlogin {} idLe exU 0 "u" true).2.2.any (fun e => match e with
+    | .save k rc => k == .gen 0 && rc.ref != (exU.obj 0).ref && rc.ref != some (.gen 1)
+    | _ => false)
+#guard login_saves_needs_refAgrees
+/-- on the states of this section the hypothesis holds (cached request objects) -/
+example (le : ID → ID → Bool) (excl : Bool) :=
+  hlogin_saves cfg3 le t5 4 "u" excl t5_ok.1 t5_ok.2.1 t5_ok.2.2.toHL (refAgrees_of_cached t5_ok.2.1 (by decide))
 
 /-! #### a history (`World.step`): evaluated, since `userSessions` sorts with `List.mergeSort` -/
 
